@@ -148,8 +148,23 @@ fn u(i: Id) -> usize {
     usize::from(i)
 }
 
-pub fn plans(o: &mut dyn Write, maxlen: usize, m: u32) {
-    for vals in seqs_up_to(maxlen, m) {
+pub fn plans(o: &mut dyn Write, maxlen: usize, m: u32, seed: u64) {
+    // all short vectors, plus seeded long vectors with many ties (sorting algorithms change behaviour with length)
+    let mut all = seqs_up_to(maxlen, m);
+    let mut x = seed | 1;
+    for k in 0..80u64 {
+        let len = 18 + (k % 50) as usize;
+        let distinct = [2u64, 3, 5][(k % 3) as usize];
+        let mut v = vec![];
+        for _ in 0..len {
+            x ^= x << 13;
+            x ^= x >> 7;
+            x ^= x << 17;
+            v.push((x % distinct) as u32);
+        }
+        all.push(v);
+    }
+    for vals in all {
         let n = vals.len();
         let plan = RewritePlan::<Id, _>::from_values_to_sort(&vals);
         let map: Vec<usize> = (0..n).map(|i| u(plan.rewrite(&Id::from(i)))).collect();
@@ -262,7 +277,7 @@ pub fn main_algebra(out: &str, what: &str, l: usize, m: u32, seed: u64) {
     match what {
         "vc" => vector_clocks(&mut o, l, m),
         "dnm" => dense_maps(&mut o, l),
-        "plans" => plans(&mut o, l, m),
+        "plans" => plans(&mut o, l, m, seed),
         "containers" => containers(&mut o, seed, l),
         "identity" => identity(&mut o),
         w => panic!("algebra {w}"),
